@@ -360,4 +360,41 @@ theorem navg_after (e : Nat) : ∀ (xs : List Sample) (f : Ntimed) (n : Nat),
     have e2 : n + (xs.length + 1) = n + 1 + xs.length := by omega
     rw [e2]; exact this
 
+/-! ## Runs split at any position -/
+
+theorem ntimedRun_append (s : Ntimed) : ∀ (pre ops : List NOp),
+    ntimedRun s (pre ++ ops) = ntimedRun s pre ++ ntimedRun (ntimedFinal s pre) ops
+  | [], _ => rfl
+  | op :: pre, ops => by
+    simp only [List.cons_append, ntimedRun, ntimedFinal]
+    cases (ntimedStep s op).2 with
+    | none => exact ntimedRun_append _ pre ops
+    | some o => simp only [List.cons_append]; rw [ntimedRun_append _ pre ops]
+
+theorem luckyRun_append (f : Lucky) : ∀ (pre ops : List LOp),
+    luckyRun f (pre ++ ops) = luckyRun f pre ++ luckyRun (luckyFinal f pre) ops
+  | [], _ => rfl
+  | op :: pre, ops => by
+    simp only [List.cons_append, luckyRun, luckyFinal]
+    cases (luckyStep f op).2 with
+    | none => exact luckyRun_append _ pre ops
+    | some o => simp only [List.cons_append]; rw [luckyRun_append _ pre ops]
+
+theorem luckyStep_config (f : Lucky) (op : LOp) :
+    (luckyStep f op).1.cap = f.cap ∧ (luckyStep f op).1.pick = f.pick := by
+  cases op with
+  | sample x =>
+    simp only [luckyStep, luckyDo]
+    split <;> exact ⟨rfl, rfl⟩
+  | reset => exact ⟨rfl, rfl⟩
+
+theorem luckyFinal_config (f : Lucky) : ∀ ops : List LOp,
+    (luckyFinal f ops).cap = f.cap ∧ (luckyFinal f ops).pick = f.pick
+  | [] => ⟨rfl, rfl⟩
+  | op :: ops => by
+    have h := luckyFinal_config (luckyStep f op).1 ops
+    have h' := luckyStep_config f op
+    simp only [luckyFinal]
+    exact ⟨h.1.trans h'.1, h.2.trans h'.2⟩
+
 end ScionTime.Filters
